@@ -86,6 +86,18 @@ func (c backendCfg) open(root string) (chain.Store, func(), error) {
 	return st, func() { st.Close(); os.RemoveAll(dir) }, nil
 }
 
+// tmpBase prefers a memory-backed directory for the throw-away bolt files (every bbolt commit
+// fsyncs); "" lets os.MkdirTemp use the default temporary directory.
+func tmpBase() string {
+	if st, err := os.Stat("/dev/shm"); err == nil && st.IsDir() {
+		if d, err := os.MkdirTemp("/dev/shm", "zzv-probe-"); err == nil {
+			os.RemoveAll(d)
+			return "/dev/shm"
+		}
+	}
+	return ""
+}
+
 func cp(b []byte) []byte { return append([]byte{}, b...) }
 
 func obsBeacon(b *common.Beacon, err error) sout {
@@ -650,6 +662,9 @@ func storeCorpus() [][]sop {
 		// re-put with different data, delete, re-put
 		{{kind: "put", r: 2, sig: s(1), prev: s(9)}, {kind: "put", r: 2, sig: s(2), prev: s(8)}, {kind: "get", r: 2}, {kind: "del", r: 2}, {kind: "get", r: 2},
 			{kind: "put", r: 2, sig: s(3)}, {kind: "get", r: 2}, {kind: "len"}},
+		// empty signature: present, not absent (bbolt returns a non-nil empty value)
+		{{kind: "put", r: 1, sig: []byte{}, prev: s(7)}, {kind: "get", r: 1}, {kind: "last"}, {kind: "len"}, {kind: "put", r: 2, sig: s(2), prev: s(6)}, {kind: "get", r: 2},
+			{kind: "copen"}, {kind: "cfirst"}, {kind: "cnext"}, {kind: "cseek", r: 1}, {kind: "cclose"}},
 		// empty store
 		{{kind: "len"}, {kind: "last"}, {kind: "get", r: 0}, {kind: "del", r: 0}, {kind: "copen"}, {kind: "cnext"}, {kind: "cfirst"}, {kind: "cnext"}, {kind: "clast"}, {kind: "cnext"}, {kind: "cseek", r: 0}, {kind: "cnext"}, {kind: "cclose"}},
 	}
@@ -667,7 +682,7 @@ func seqKey(cfg backendCfg, ops []sop) string {
 // RunStore is the engine "store" (C18).
 func RunStore(outDir string, seed int64, tier string) error {
 	rep := emit.NewReport("store", seed, tier)
-	root, err := os.MkdirTemp("", "zzv-store-")
+	root, err := os.MkdirTemp(tmpBase(), "zzv-store-")
 	if err != nil {
 		return err
 	}
